@@ -233,6 +233,14 @@ impl<T, U> RightUnwrapOr<T, U> for Option<(T, U)> {
     }
 }
 
+/// 完整的前缀判断
+/// * ⚠️工具库的[`StartsWithStr::starts_with_str`]在「切片比前缀短、且是其开头」时也返回`true`
+///   * 📄如：输入在关键字中途截断（LaTeX `\left(\times{}\; A\`）⇒误判匹配到右括弧/分隔符，边界越过环境末尾，随后切片时panic
+/// * 🚩此处先验证长度，再逐字符比对
+fn starts_with_full(env: &[char], needle: &str) -> bool {
+    env.len() >= needle.chars().count() && env.starts_with_str(needle)
+}
+
 /// 总入口
 /// * 🚩构造「解析状态」然后转发到「解析状态的实例方法」中去
 pub fn parse(format: &NarseseFormat, input: &str) -> ParseResult {
@@ -774,12 +782,12 @@ impl ParseState<'_> {
         term_begin += term_len;
         loop {
             // 右括弧⇒跳过，结束
-            if env[term_begin..].starts_with_str(right) {
+            if starts_with_full(&env[term_begin..], right) {
                 right_border = term_begin + right.chars().count();
                 break;
             }
             // 分隔符⇒跳过
-            if env[term_begin..].starts_with_str(&self.format.compound.separator) {
+            if starts_with_full(&env[term_begin..], &self.format.compound.separator) {
                 term_begin += self.format.compound.separator.chars().count();
             }
             // 解析一个词项
@@ -826,12 +834,12 @@ impl ParseState<'_> {
         let right_border;
         loop {
             // 右括弧⇒跳过，结束
-            if env[term_begin..].starts_with_str(right) {
+            if starts_with_full(&env[term_begin..], right) {
                 right_border = term_begin + right.chars().count();
                 break;
             }
             // 分隔符⇒跳过
-            if env[term_begin..].starts_with_str(&self.format.compound.separator) {
+            if starts_with_full(&env[term_begin..], &self.format.compound.separator) {
                 term_begin += self.format.compound.separator.chars().count();
             }
             // 解析一个词项
@@ -893,7 +901,7 @@ impl ParseState<'_> {
 
         // 跳过右括弧 //
         let right_bracket_start = predicate_start + relative_len;
-        let right_border = match env[right_bracket_start..].starts_with_str(right) {
+        let right_border = match starts_with_full(&env[right_bracket_start..], right) {
             true => right_bracket_start + right.chars().count(),
             false => return self.err(env, "未匹配到右括弧"),
         };
